@@ -211,6 +211,16 @@ def verify_rt(contract, cfg, both=False):
                     res['verdicts'].append({'obligation': 'bounded:contract-on-all-small-inputs', 'kind': 'post', 'verdict': 'sat',
                                             'solver': 'native-enumeration', 'time_s': 0.0, 'path': None, 'model': None,
                                             'replay': {'reproduced': True, 'violated': bad[:5], 'bound': bound, 'tried': tried}})
+        if both and b is not None and res.get('error') is None and all(d['verdict'] == 'unsat' for d in res['verdicts']):
+            # thorough tier: CPython cross-check of the engine and of the contract - everything was PROVED, so the contract evaluated
+            # natively on all small inputs must hold too; a refutation here is a fault of the checker (exit 3), not a violation
+            try:
+                bad, tried, bound = b(cx)
+            except Exception as e2:
+                bad, tried, bound = [], 0, f'crashed: {type(e2).__name__}: {e2}'
+            res.setdefault('stats', {})['cpython_crosscheck'] = {'tried': tried, 'bound': str(bound), 'disagreements': len(bad)}
+            if bad:
+                res['error'] = ('crash', f'UNSOUND: all VCs proved but the native evaluation of the contract fails: {bad[0]}')
     except Exception as e:
         if not isinstance(e, (OutOfSubset, _RoleError)) and not contract_binding_failure(e):
             raise
